@@ -126,16 +126,60 @@ class TOpaque(TRefLike):
         self.name = tag
 
 
+_key_sorts = {}
+
+
+def key_sort(t):
+    """z3 sort used to index dict contents by keys of type t (compound keys become a tuple datatype)."""
+    sorts = t.sorts()
+    if len(sorts) == 1:
+        return sorts[0]
+    name = "Key_" + "".join(ch if ch.isalnum() else "_" for ch in repr(t))
+    if name not in _key_sorts:
+        dt = z3.Datatype(name)
+        dt.declare("mk_" + name, *[(f"{name}_f{i}", so) for i, so in enumerate(sorts)])
+        _key_sorts[name] = dt.create()
+    return _key_sorts[name]
+
+
+def key_term(v):
+    if isinstance(v.t, TOpt):
+        # normalise: a None key always carries the default inner value
+        inner = v.v[1]
+        dflt = v.t.inner.default_terms()
+        isnone = z3.simplify(v.v[0]) if not isinstance(v.v[0], bool) else z3.BoolVal(v.v[0])
+        if z3.is_false(isnone):
+            terms = [isnone] + list(inner.terms())
+        elif z3.is_true(isnone):
+            terms = [isnone] + list(dflt)
+        else:
+            terms = [isnone] + [z3.If(isnone, d, x) for x, d in zip(inner.terms(), dflt)]
+        return key_sort(v.t).constructor(0)(*terms)
+    terms = v.terms()
+    if len(terms) == 1:
+        return terms[0]
+    return key_sort(v.t).constructor(0)(*terms)
+
+
 class TDict(TRefLike):
-    def __init__(self, k, v, udict=False):
-        self.k, self.v, self.udict = k, v, udict
-        self.name = f"{'UDict' if udict else 'Dict'}[{k},{v}]"
+    def __init__(self, k, v, udict=False, flavour=None):
+        """flavour: python class of the dict object: 'dict', 'udict' (pint.util.udict) or 'ddict'
+        (collections.defaultdict(int)).  Objects of different classes are distinct objects, so each
+        flavour has its own content arrays (no aliasing across flavours).  udict and ddict return 0
+        for missing keys."""
+        self.k, self.v = k, v
+        self.flavour = flavour or ("udict" if udict else "dict")
+        self.udict = self.flavour in ("udict", "ddict")
+        self.name = f"{ {'dict': 'Dict', 'udict': 'UDict', 'ddict': 'DDict'}[self.flavour] }[{k},{v}]"
+
+    def ksort(self):
+        return key_sort(self.k)
 
     def dom_key(self):
-        return f"dom<{self.k}>"
+        return f"dom<{self.k},{self.v}>@{self.flavour}"
 
     def val_key(self, i):
-        return f"val<{self.k},{self.v}>#{i}"
+        return f"val<{self.k},{self.v}>@{self.flavour}#{i}"
 
     def card_key(self):
         return f"card<{self.k}>"
@@ -246,6 +290,26 @@ class TExc(T):
         raise Unsupported("exception objects cannot be stored symbolically")
 
 
+class TExcObj(T):
+    """An exception instance used as a value (returned / stored), of a statically known class;
+    its arguments are not modelled."""
+
+    simple = False
+
+    def __init__(self, cls):
+        self.cls = cls
+        self.name = f"Exc[{cls}]"
+
+    def sorts(self):
+        return []
+
+    def make(self, terms):
+        return Val(self, None)
+
+    def default_terms(self):
+        return []
+
+
 NUM, INT, BOOL, STR, NONE = TNum(), TInt(), TBool(), TStr(), TNone()
 NUMTYPE = TOpaque("NumType")  # a numeric type object (float, Fraction, Decimal)
 OTHER = TOpaque("Other")  # an arbitrary object of no modelled class
@@ -289,8 +353,11 @@ def parse_type(s: str) -> T:
     parts.append(cur)
     if head == "Ref":
         return TRef(body.strip())
-    if head in ("Dict", "UDict"):
-        return TDict(parse_type(parts[0]), parse_type(parts[1]), udict=(head == "UDict"))
+    if head == "Exc":
+        return TExcObj(body.strip())
+    if head in ("Dict", "UDict", "DDict"):
+        return TDict(parse_type(parts[0]), parse_type(parts[1]),
+                     flavour={"Dict": "dict", "UDict": "udict", "DDict": "ddict"}[head])
     if head == "Set":
         return TSet(parse_type(parts[0]))
     if head == "List":
@@ -305,6 +372,8 @@ def parse_type(s: str) -> T:
         return TMap(parse_type(parts[0]), parse_type(parts[1]))
     if head == "SetV":
         return TSetV(parse_type(parts[0]))
+    if head == "Arr":
+        return TArr(parse_type(parts[0]), parse_type(parts[1]))
     if head == "Union":
         return TUnion([parse_type(p) for p in parts])
     raise ValueError(f"bad type {s!r}")
@@ -329,7 +398,7 @@ class Val:
 
     def terms(self):
         t = self.t
-        if isinstance(t, TNone):
+        if isinstance(t, (TNone, TExcObj)):
             return []
         if isinstance(t, TTuple):
             return [x for it in self.v for x in it.terms()]
@@ -409,6 +478,12 @@ def coerce(v: Val, t: T) -> Val:
             return Val(t, (v.v[0], coerce(v.v[1], t.inner)))
         return Val(t, (z3.BoolVal(False), coerce(v, t.inner)))
     if isinstance(t, TUnion):
+        if isinstance(v, ExcVal):
+            for i, alt in enumerate(t.alts):
+                if isinstance(alt, TExcObj) and alt.cls == v.cls:
+                    alts = [a.make(a.default_terms()) for a in t.alts]
+                    return Val(t, (z3.IntVal(i), tuple(alts)))
+            raise Unsupported(f"cannot coerce exception {v.cls} into {t}")
         if isinstance(v.t, TUnion):
             raise Unsupported(f"union to union coercion {v.t} -> {t}")
         for i, alt in enumerate(t.alts):
@@ -421,7 +496,7 @@ def coerce(v: Val, t: T) -> Val:
         return Val(t, tuple(coerce(a, b) for a, b in zip(v.v, t.items)))
     if isinstance(t, TRef) and isinstance(v.t, TRef):
         return Val(t, v.v)  # class relation is tracked dynamically
-    if isinstance(t, TDict) and isinstance(v.t, TDict) and t.k == v.t.k and t.v == v.t.v:
+    if isinstance(t, TDict) and isinstance(v.t, TDict) and t.k == v.t.k and t.v == v.t.v and t.flavour == v.t.flavour:
         return Val(t, v.v)
     if isinstance(t, TRefLike) and isinstance(v.t, TRefLike) and type(t) is type(v.t) and isinstance(t, TOpaque):
         return Val(t, v.v)
@@ -436,7 +511,7 @@ def compatible(a: T, b: T) -> bool:
     if isinstance(a, TRef) and isinstance(b, TRef):
         return True
     if isinstance(a, TDict) and isinstance(b, TDict):
-        return a.k == b.k and a.v == b.v
+        return a.k == b.k and a.v == b.v and a.flavour == b.flavour
     return False
 
 
@@ -606,14 +681,17 @@ class TMap(T):
         self.k, self.v = k, v
         self.name = f"Map[{k},{v}]"
 
+    def ksort(self):
+        return key_sort(self.k)
+
     def sorts(self):
-        return [z3.ArraySort(self.k.sort(), z3.BoolSort()), z3.ArraySort(self.k.sort(), self.v.sort())]
+        return [z3.ArraySort(self.ksort(), z3.BoolSort()), z3.ArraySort(self.ksort(), self.v.sort())]
 
     def make(self, terms):
         return Val(self, (terms[0], terms[1]))
 
     def default_terms(self):
-        return [z3.K(self.k.sort(), z3.BoolVal(False)), z3.K(self.k.sort(), self.v.default_terms()[0])]
+        return [z3.K(self.ksort(), z3.BoolVal(False)), z3.K(self.ksort(), self.v.default_terms()[0])]
 
 
 class TSetV(T):
@@ -628,6 +706,20 @@ class TSetV(T):
 
     def default_terms(self):
         return [z3.K(self.e.sort(), z3.BoolVal(False))]
+
+
+class TArr(T):
+    """Total function K -> V as a value (a z3 array)."""
+
+    def __init__(self, k, v):
+        self.k, self.v = k, v
+        self.name = f"Arr[{k},{v}]"
+
+    def sort(self):
+        return z3.ArraySort(self.k.sort(), self.v.sort())
+
+    def default_terms(self):
+        return [z3.K(self.k.sort(), self.v.default_terms()[0])]
 
 
 def _val_terms(self):
